@@ -17,6 +17,8 @@ pub fn run(case: &serde_json::Value, out: &mut String) {
     let recs = solver::verif_hooks::take();
     if let Some((_, s)) = recs.first() {
         writeln!(out, "{}", perm_line(&s.get_network())).unwrap();
+        // the predicate that decides whether the local-search stage runs at all
+        writeln!(out, "CONSIDERED {}", s.get_network().maintenance_considered()).unwrap();
     }
     for (label, s) in recs.iter() {
         let mut b = String::new();
